@@ -531,8 +531,46 @@ func (fc *FnCtx) lenOf(v Val) string {
 	return v.L[2]
 }
 
+// callSpecFunc: a call f(args) inside a contract expression, where f is an in-repo function under contract,
+// stands for "some result allowed by f's contract": preconditions become obligations, postconditions are assumed.
 func (env *Env) callSpecFunc(name string, args []ast.Expr) (Val, bool) {
-	return Val{}, false
+	fc := env.fc
+	key := env.pkg.Name() + "." + name
+	callee := fc.eng.funcs[key]
+	c := fc.eng.contracts[key]
+	if callee == nil || c == nil {
+		return Val{}, false
+	}
+	var avs []Val
+	for i, a := range args {
+		v := env.eval(a)
+		if i < len(callee.Params) {
+			v = env.typed(v, callee.Params[i].Type())
+		}
+		avs = append(avs, v)
+	}
+	saved := fc.cur
+	if env.st != fc.cur {
+		// evaluate against the environment's state
+		fc.cur = env.st
+	}
+	res := fc.applyContract(callee, c, avs, nil, token.NoPos, callResultTypeOf(callee), "true", shortCallee(key))
+	env.st = fc.cur
+	if saved != nil && saved != env.st && !fc.lemmaMode {
+		fc.cur = saved
+	}
+	return res, true
+}
+
+func callResultTypeOf(fn *ssa.Function) types.Type {
+	res := fn.Signature.Results()
+	switch res.Len() {
+	case 0:
+		return types.NewTuple()
+	case 1:
+		return res.At(0).Type()
+	}
+	return res
 }
 
 // e2ghostNames adds the state names of a ghost variable (at most 4 leaves; extra names are harmless).
